@@ -165,6 +165,18 @@ Definition take_pk (c : cfg) (f : Q) (e : env) (n : node) (id : nat) : env * nod
       end
   end.
 
+(* doTake when the query fails with another error (node.go:209-212): the cache answers if it can; after a miss the
+   error is returned (IncrDbFails) and nothing is stored *)
+Definition take_pk_dberr (e : env) (n : node) (id : nat) : env * node * rres :=
+  let (n1, g) := do_get dec_row n (PK id) in
+  match g with
+  | GErr => (e, n1, RCacheErr)
+  | GStar => (e, n1, RNotFound)
+  | GOther => (e, n1, RUnmodelled)
+  | GHit (a, b, v) => (e, n1, RRow a b v)
+  | GMiss => (incr_q e, n1, RDbErr)
+  end.
+
 (* cachedsql.go:153 QueryRowIndexCtx on one node: TakeWithExpireCtx draws the expiry first (f1); the
    index query stores the row under the primary key with expire + gap and returns that set's error;
    then the index entry is stored with expire; on an index hit the row is taken by primary key (f2) *)
@@ -210,7 +222,8 @@ Inductive op :=
 | Tick                                 (* the cleaner's timer ticks once *)
 | Fault (g s d : bool)                 (* Down = Fault true true true, Up = Fault false false false *)
 | Corrupt (k : key) (g : nat) (ttl : Z) (* somebody else writes a non-JSON string *)
-| QueryCancelled (k : key).           (* QueryRow (PK) / QueryRowIndex (IX) with an already cancelled context *)
+| QueryCancelled (k : key)            (* QueryRow (PK) / QueryRowIndex (IX) with an already cancelled context *)
+| QueryRowDbErr (id : nat).           (* QueryRow whose database query fails with an error other than not-found *)
 
 Definition step (c : cfg) (s : env * node) (o : op) : env * node * rres :=
   let (e, n) := s in
@@ -227,6 +240,7 @@ Definition step (c : cfg) (s : env * node) (o : op) : env * node * rres :=
   (* node.go:169-175 doGetCache: rds.GetCtx under a cancelled context answers context.Canceled, which doTake
      returns as it is (node.go:196-202): no database query, nothing stored *)
   | QueryCancelled k => (e, n, RCtxErr)
+  | QueryRowDbErr id => take_pk_dberr e n id
   end.
 
 Definition step_st (c : cfg) (s : env * node) (o : op) : env * node := fst (step c s o).
@@ -317,6 +331,11 @@ Section Cluster.
     | COp (Fault g s d) => (e, map (fun n => set_faults n g s d) ns, ROk)
     | COp (Corrupt k g ttl) => (e, fst (on_node ns k tt (fun n => (r_setex n k (VBad g) ttl, tt))), ROk)
     | COp (QueryCancelled k) => (e, ns, RCtxErr)
+    | COp (QueryRowDbErr id) =>
+        match nth_error ns (place (PK id)) with
+        | Some n => let '(e', n', r) := take_pk_dberr e n id in (e', upd (place (PK id)) n' ns, r)
+        | None => (e, ns, RNotFound)
+        end
     end.
 
   Definition cstep_st (c : cfg) (s : env * list node) (o : cop) : env * list node := fst (cstep c s o).
